@@ -606,17 +606,23 @@ func c31ErrClass(err error) string {
 // (the ledger mock), which is outside the code under test.
 func c31PanicFromMock(trace string) bool {
 	lines := strings.Split(trace, "\n")
-	// find the "panic(" frame, then the first following non-runtime function frame
-	for i := 0; i < len(lines); i++ {
+	// the tracer hook in eval re-panics, so the original panic is the LAST "panic(" frame of the trace; the frame
+	// after it (skipping runtime frames) is the function that panicked
+	last := -1
+	for i := range lines {
 		if strings.HasPrefix(lines[i], "panic(") {
-			for j := i + 2; j+1 < len(lines); j += 2 {
-				fn, file := lines[j], strings.TrimSpace(lines[j+1])
-				if strings.HasPrefix(fn, "runtime.") || strings.HasPrefix(fn, "runtime/") {
-					continue
-				}
-				return strings.Contains(file, "_test.go:")
-			}
+			last = i
 		}
+	}
+	if last < 0 {
+		return false
+	}
+	for j := last + 2; j+1 < len(lines); j += 2 {
+		fn, file := lines[j], strings.TrimSpace(lines[j+1])
+		if strings.HasPrefix(fn, "runtime.") || strings.HasPrefix(fn, "runtime/") {
+			continue
+		}
+		return strings.Contains(file, "_test.go:") && !strings.Contains(file, "zz_verif_")
 	}
 	return false
 }
